@@ -362,14 +362,17 @@ type guard struct {
 	sub  []guard
 }
 
-func gc(name string) guard      { return guard{kind: gCall, name: name, pol: true} }
-func gcNot(name string) guard   { return guard{kind: gCall, name: name, pol: false} }
-func gf(name string) guard      { return guard{kind: gField, name: name, pol: true} }
-func gfNot(name string) guard   { return guard{kind: gField, name: name, pol: false} }
-func gNonNil(name string) guard { return guard{kind: gNil, name: name, pol: false} }
-func gIsNil(name string) guard  { return guard{kind: gNil, name: name, pol: true} }
-func gOk(name string) guard     { return guard{kind: gOkLookup, name: name, pol: true} }
-func gNotOk(name string) guard  { return guard{kind: gOkLookup, name: name, pol: false} }
+func gc(name string) guard    { return guard{kind: gCall, name: name, pol: true} }
+func gcNot(name string) guard { return guard{kind: gCall, name: name, pol: false} }
+
+// gcText: the call of `name` whose whole text is `text` (the predicate asked of that very subject)
+func gcText(name, text string) guard { return guard{kind: gCall, name: name, rhs: text, pol: true} }
+func gf(name string) guard           { return guard{kind: gField, name: name, pol: true} }
+func gfNot(name string) guard        { return guard{kind: gField, name: name, pol: false} }
+func gNonNil(name string) guard      { return guard{kind: gNil, name: name, pol: false} }
+func gIsNil(name string) guard       { return guard{kind: gNil, name: name, pol: true} }
+func gOk(name string) guard          { return guard{kind: gOkLookup, name: name, pol: true} }
+func gNotOk(name string) guard       { return guard{kind: gOkLookup, name: name, pol: false} }
 func gOkOn(name, subject string) guard {
 	return guard{kind: gOkLookup, name: name, pol: true, rhs: subject}
 }
@@ -672,6 +675,9 @@ func atomMatches(fn *Func, a *Atom, g guard) bool {
 	case gCall:
 		if call, ok := e.(*ast.CallExpr); ok {
 			if f := calleeOf(info, call); f != nil && fname(f) == g.name {
+				if g.rhs != "" && !sameText(fn, cmpText(call), g.rhs) && !sameText(fn, cmpText(fn.InlineLocals(call, 2)), g.rhs) {
+					return false // the named predicate, but asked of something else
+				}
 				return a.Pol == g.pol
 			}
 		}
@@ -1157,6 +1163,16 @@ func safeAtom(fn *Func, a *Atom) bool {
 					}
 				}
 			}
+			// … also through a local that merely names that field (body := x.Body; body != nil)
+			if id, ok := ast.Unparen(other).(*ast.Ident); ok {
+				if def := fn.SingleDef(info.ObjectOf(id)); def != nil {
+					if sel, ok := ast.Unparen(def).(*ast.SelectorExpr); ok {
+						if tv := info.TypeOf(sel); tv != nil && roleOfType(tv) == roleCONS {
+							return false
+						}
+					}
+				}
+			}
 			// … and so does a nil test of a local that holds a schema looked up so far
 			if id, ok := ast.Unparen(other).(*ast.Ident); ok {
 				if v, isVar := info.ObjectOf(id).(*types.Var); isVar && !rootOf(fn).isParam(v) && !fn.isParam(v) && len(fn.Assignments(v)) >= 2 {
@@ -1274,10 +1290,46 @@ func runRows(prop string) func(p *Prog, r *Report) {
 					}
 					if rw.exact != nil {
 						var extra []string
-						judge := func(fx *Func, f *Formula) {
+						var judge func(fx *Func, f *Formula)
+						helperSeen := map[*Func]bool{}
+						judge = func(fx *Func, f *Formula) {
 							for _, a := range f.AllAtoms() {
 								if a == nil || a.Expanded {
 									continue
+								}
+								// the ok flag of an unexported helper of this package: what makes the helper
+								// answer false filters the emission just the same
+								if a.E != nil && a.Pol {
+									named := false
+									if h := okFlagHelper(fx, a); h != nil {
+										for _, g := range rw.need {
+											gs := []guard{g}
+											if g.kind == gAny {
+												gs = g.sub
+											}
+											for _, gg := range gs {
+												if gg.kind == gOkLookup && gg.name == bareFuncName(h) {
+													named = true // the row itself names this helper's verdict as its condition
+												}
+											}
+										}
+									}
+									if h := okFlagHelper(fx, a); h != nil && !named && !helperSeen[h] && len(helperSeen) < 3 {
+										helperSeen[h] = true
+										ast.Inspect(h.Body, func(z ast.Node) bool {
+											if _, isLit := z.(*ast.FuncLit); isLit {
+												return false
+											}
+											rs, ok := z.(*ast.ReturnStmt)
+											if !ok || len(rs.Results) < 2 {
+												return true
+											}
+											if id, ok := ast.Unparen(rs.Results[len(rs.Results)-1]).(*ast.Ident); ok && id.Name == "false" {
+												judge(h, h.GuardsAt(rs))
+											}
+											return true
+										})
+									}
 								}
 								unrelatedA := a.E != nil && fx == fn && !a.Pol && unrelatedAssertion(fx, a, em)
 								if unrelatedA {
@@ -1307,12 +1359,19 @@ func runRows(prop string) func(p *Prog, r *Report) {
 										}
 									} else if atomMatches(fx, a, g) {
 										allowed = true
+									} else if g.kind == gNil && atomMatchesEitherPol(fx, a, g) {
+										// the nil test the row names, met in its other polarity on the way here
+										allowed = true
 									}
 								}
 								txt := cmpText(fx.viewExpr(a.E))
 								txtFolded := cmpText(constFold(fx, fx.viewExpr(a.E)))
+								txtInlined := cmpText(fx.InlineLocals(fx.viewExpr(a.E), 2))
 								for _, ex := range rw.exact {
-									if sameText(fx, txt, ex) || sameText(fx, txtFolded, ex) || lastSel(fx.viewExpr(a.E)) == ex {
+									if sameText(fx, txt, ex) || sameText(fx, txtFolded, ex) || sameText(fx, txtInlined, ex) || lastSel(fx.viewExpr(a.E)) == ex {
+										allowed = true
+									}
+									if !allowed && lastSel(fx.InlineLocals(fx.viewExpr(a.E), 2)) == ex {
 										allowed = true
 									}
 									// part of the inlined body of a predicate the row allows by name
@@ -2135,7 +2194,62 @@ func nativeSyntaxGate(fn *Func, a *Atom) string {
 	case *ast.Ident:
 		if a.Pol {
 			if o := info.ObjectOf(x); o != nil {
-				return assertionOf(o, 1)
+				if g := assertionOf(o, 1); g != "" {
+					return g
+				}
+			}
+			// the ok flag of a helper that answers true only for native-syntax nodes
+			if h := okFlagHelper(fn, a); h != nil {
+				nTrue, nGated := 0, 0
+				hinfo := h.Info()
+				ast.Inspect(h.Body, func(z ast.Node) bool {
+					if _, isLit := z.(*ast.FuncLit); isLit {
+						return false
+					}
+					rs, ok := z.(*ast.ReturnStmt)
+					if !ok || len(rs.Results) < 2 {
+						return true
+					}
+					if id, ok := ast.Unparen(rs.Results[len(rs.Results)-1]).(*ast.Ident); !ok || id.Name != "true" {
+						return true
+					}
+					nTrue++
+					gated := false
+					for q := h.Prog.Parent(rs); q != nil && q != ast.Node(h.Body); q = h.Prog.Parent(q) {
+						if cc, ok := q.(*ast.CaseClause); ok {
+							if _, isTS := h.Prog.Parent(h.Prog.Parent(cc)).(*ast.TypeSwitchStmt); isTS && len(cc.List) > 0 {
+								all := true
+								for _, t := range cc.List {
+									pt, ok := hinfo.TypeOf(t).(*types.Pointer)
+									if !ok {
+										all = false
+										continue
+									}
+									if nt := namedOf(pt); nt == nil || nt.Obj().Pkg() == nil || !strings.HasSuffix(nt.Obj().Pkg().Path(), "hclsyntax") {
+										all = false
+									}
+								}
+								if all {
+									gated = true
+								}
+							}
+						}
+					}
+					if !gated {
+						for _, ha := range h.GuardsAt(rs).AllAtoms() {
+							if ha != nil && ha.E != nil && !ha.Expanded && nativeSyntaxGate(h, ha) != "" {
+								gated = true
+							}
+						}
+					}
+					if gated {
+						nGated++
+					}
+					return true
+				})
+				if nTrue > 0 && nTrue == nGated {
+					return "the helper " + bareFuncName(h) + " (which answers true only for native-syntax nodes)"
+				}
 			}
 		}
 	case *ast.BinaryExpr:
@@ -2288,4 +2402,49 @@ func containsWord(s, w string) bool {
 
 func isIdentByte(b byte) bool {
 	return b == '_' || b >= '0' && b <= '9' || b >= 'a' && b <= 'z' || b >= 'A' && b <= 'Z'
+}
+
+// okFlagHelper: the atom is the ok flag (last result, a bool) of a call of an unexported
+// function of the same package that has a body; returns that function.
+func okFlagHelper(fn *Func, a *Atom) *Func {
+	info := fn.Info()
+	id, ok := ast.Unparen(a.E).(*ast.Ident)
+	if !ok {
+		return nil
+	}
+	o := info.ObjectOf(id)
+	if o == nil {
+		return nil
+	}
+	var res *Func
+	n := 0
+	for f := fn; f != nil; f = f.Parent {
+		for _, asn := range f.Assignments(o) {
+			n++
+			s, ok := asn.(*ast.AssignStmt)
+			if !ok || len(s.Rhs) != 1 || len(s.Lhs) < 2 {
+				continue
+			}
+			if lid, ok := s.Lhs[len(s.Lhs)-1].(*ast.Ident); !ok || info.ObjectOf(lid) != o {
+				continue
+			}
+			call, ok := ast.Unparen(s.Rhs[0]).(*ast.CallExpr)
+			if !ok {
+				continue
+			}
+			cf := calleeOf(info, call)
+			if cf == nil || cf.Exported() || cf.Pkg() != fn.Pkg.Types {
+				continue
+			}
+			if sig, ok := cf.Type().(*types.Signature); ok && sig.Recv() == nil {
+				if t := fn.Prog.FuncOf[cf]; t != nil && t.Body != nil {
+					res = t
+				}
+			}
+		}
+	}
+	if n != 1 {
+		return nil
+	}
+	return res
 }
